@@ -612,6 +612,17 @@ func runC10(e *sim.Env) {
 		c.contract.Revision = res.Revision
 	}
 	c.syncFromHost()
+	// half of the runs: one sector is freed first, so that the contract has
+	// spare capacity (capacity above file size) throughout the table
+	if e.Chance(1, 2) {
+		if res, err := rhp4.RPCFreeSectors(ctx, c.tr, c.signer, c.cs(), c.prices, c.contract, []uint64{uint64(e.Intn(5))}); err != nil {
+			e.Violationf("C10.honest-rpc", "free", "honest free failed: %v", err)
+		} else {
+			c.contract.Revision = res.Revision
+		}
+		c.syncFromHost()
+		e.Shape("spare-capacity")
+	}
 
 	cases := 0
 	for _, call := range c.calls() {
